@@ -37,14 +37,21 @@ Definition decode_ret (c : N) : option ret :=
   | _ => Some (ROpt (Some (N.to_nat (c - 10))))
   end%N.
 
-Definition obs := (nat * N * N * N * N)%type.   (* actor, act code, view, ret, pc *)
+(* one observation packed in one number: ((((actor*8 + act)*128 + view)*128 + ret)*16 + pc *)
+Definition obs := N.
+Definition unpack (o : obs) : nat * N * N * N * N :=
+  let c := N.modulo o 16 in let o1 := N.div o 16 in
+  let r := N.modulo o1 128 in let o2 := N.div o1 128 in
+  let v := N.modulo o2 128 in let o3 := N.div o2 128 in
+  (N.to_nat (N.div o3 8), N.modulo o3 8, v, r, c).
 
 (* first index (from 1) at which the model and the observation differ; 0 = none.
    A label that is not enabled in the model is a difference. *)
 Fixpoint compare (s : state) (k : N) (os : list obs) : N :=
   match os with
   | [] => 0%N
-  | (q, a, v, r, c) :: t =>
+  | o :: t =>
+    let '(q, a, v, r, c) := unpack o in
     match exec s (q, act_of a) with
     | None => k
     | Some (s', ev) =>
@@ -63,7 +70,8 @@ Fixpoint cur_op (q : nat) (cur : list (nat * op)) : op :=
 Fixpoint mon_obs (m : mon) (cur : list (nat * op)) (os : list obs) : mon :=
   match os with
   | [] => m
-  | (q, a, v, r, c) :: t =>
+  | o :: t =>
+    let '(q, a, v, r, c) := unpack o in
     match act_of a with
     | AStart o => mon_obs (mon_step m (q, AStart o) None) ((q, o) :: cur) t
     | ACrash => mon_obs (mon_step m (q, ACrash) None) cur t
@@ -73,8 +81,39 @@ Fixpoint mon_obs (m : mon) (cur : list (nat * op)) (os : list obs) : mon :=
     end
   end.
 
+(* liveness-as-safety on the OBSERVED returns: a get_locker_pid must not return an owner that was
+   dead when the call started; an is_locked must not return true when every other process was dead
+   when the call started. *)
+Fixpoint dead_at (q : nat) (st : list (nat * list nat)) : list nat :=
+  match st with
+  | [] => []
+  | (q', d) :: t => if Nat.eqb q q' then d else dead_at q t
+  end.
+
+Fixpoint stale_obs (n : nat) (dead : list nat) (st : list (nat * list nat)) (cur : list (nat * op))
+         (os : list obs) : bool :=
+  match os with
+  | [] => false
+  | o :: t =>
+    let '(q, a, v, r, c) := unpack o in
+    match act_of a with
+    | AStart op_ => stale_obs n dead ((q, dead) :: st) ((q, op_) :: cur) t
+    | ACrash => stale_obs n (q :: dead) st cur t
+    | AStep =>
+      let ds := dead_at q st in
+      let isdead := fun d => (memn d ds || negb (Nat.ltb d n))%bool in
+      let here :=
+        match decode_ret r, cur_op q cur with
+        | Some (ROpt (Some d)), _ => isdead d
+        | Some (RBool true), OIsLocked => forallb (fun p => (Nat.eqb p q || isdead p)%bool) (seq 0 n)
+        | _, _ => false
+        end in
+      (here || stale_obs n dead st cur t)%bool
+    end
+  end.
+
 Definition sched_of (os : list obs) : list label :=
-  map (fun o => match o with (q, a, _, _, _) => (q, act_of a) end) os.
+  map (fun o => match unpack o with (q, a, _, _, _) => (q, act_of a) end) os.
 
 Definition init_of (i : N) : fsys :=
   match i with
@@ -82,14 +121,15 @@ Definition init_of (i : N) : fsys :=
   end%N.
 
 (* (first difference or 0, S violated by the observed returns, S violated in the model,
-    class of the first hazard of the schedule in the model) *)
-Definition judge (n : nat) (i : N) (os : list obs) : N * N * N * N :=
-  let s := init n (init_of i) in
+    class of the first hazard of the schedule in the model, stale owner reported by the observed returns) *)
+Definition judge (n : N) (i : N) (os : list obs) : N * N * N * N * N :=
+  let s := init (N.to_nat n) (init_of i) in
   let sc := sched_of os in
   (compare s 1%N os,
    if bad (mon_obs mon0 [] os) then 1%N else 0%N,
    if bad (snd (run_mon s mon0 sc)) then 1%N else 0%N,
-   first_hazard s sc).
+   first_hazard s sc,
+   if stale_obs (N.to_nat n) [] [] [] os then 1%N else 0%N).
 
-Definition judge_all (cs : list (nat * N * list obs)) : list (N * N * N * N) :=
+Definition judge_all (cs : list (N * N * list obs)) : list (N * N * N * N * N) :=
   map (fun c => match c with (n, i, os) => judge n i os end) cs.
